@@ -88,6 +88,9 @@ def rerun(a):
         if meta.get('superseded_by'):
             print(f'skipped {name:<27} superseded by ' + meta['superseded_by'][:60])
             continue
+        if meta.get('out_of_scope'):
+            print(f'skipped {name:<27} not a violation of the property as read: ' + meta['out_of_scope'][:90])
+            continue
         def body(wt, tmp):
             ap = sh(['git', '-C', wt, 'apply', '--whitespace=nowarn', os.path.join(d, 'patch.diff')])
             if ap.returncode != 0:
